@@ -139,4 +139,95 @@ theorem writeHtmlPrettyGo_ok_all (c : HtmlCtx) (sup : List Nat) (t : Tree) (outs
     | err e => rw [hr] at h; simp at h
     | panic => rw [hr] at h; simp at h
 
+/-! ### The written bytes are the rendered tokens -/
+
+/-- Every entry of the rendered stream is the result of one `render_output` call on the node at
+    its path. -/
+theorem renderHtmlAll_mem (c : HtmlCtx) (t : Tree) (outs : List (Path × Output)) :
+    ∀ s l, renderHtmlAll c t s outs = .ok l → ∀ k ∈ l, ∃ s1 s2 node,
+      t.at? k.1 = some node ∧ renderHtml c s1 node (t.parentAt? k.1) k.2.1 = .ok (s2, k.2.2) := by
+  induction outs with
+  | nil =>
+    intro s l h k hk
+    simp only [renderHtmlAll, Outcome.ok.injEq] at h
+    subst h; simp at hk
+  | cons po rest ih =>
+    intro s l h k hk
+    obtain ⟨p, o⟩ := po
+    simp only [renderHtmlAll] at h
+    cases hr : renderHtmlAt c t s p o with
+    | ok v =>
+      obtain ⟨s', tok⟩ := v
+      rw [hr] at h
+      simp only at h
+      cases hrest : renderHtmlAll c t s' rest with
+      | ok l' =>
+        rw [hrest] at h
+        simp only [Outcome.ok.injEq] at h
+        subst h
+        rcases List.mem_cons.mp hk with rfl | hk
+        · unfold renderHtmlAt at hr
+          cases hat : t.at? p with
+          | none => simp [hat] at hr
+          | some node =>
+            refine ⟨s, s', node, rfl, ?_⟩
+            simpa only [hat] using hr
+        · exact ih s' l' hrest k hk
+      | err e => rw [hrest] at h; cases h
+      | panic => rw [hrest] at h; cases h
+    | err e => rw [hr] at h; cases h
+    | panic => rw [hr] at h; cases h
+
+/-- Without indentation: the bytes written are the token texts, each preceded by a space when
+    flagged, in order. -/
+theorem writeHtmlGo_tokens (c : HtmlCtx) (t : Tree) (outs : List (Path × Output)) :
+    ∀ s, (writeHtmlGo c t s outs).2 = .ok () →
+      ∃ l, renderHtmlAll c t s outs = .ok l ∧
+        (writeHtmlGo c t s outs).1 = l.flatMap (fun k => htmlTokenBytes k.2.2) := by
+  induction outs with
+  | nil => intro s _; exact ⟨[], rfl, rfl⟩
+  | cons po rest ih =>
+    intro s h
+    obtain ⟨p, o⟩ := po
+    simp only [writeHtmlGo] at h ⊢
+    simp only [renderHtmlAll]
+    cases hr : renderHtmlAt c t s p o with
+    | ok v =>
+      obtain ⟨s', tok⟩ := v
+      rw [hr] at h
+      simp only at h ⊢
+      obtain ⟨l, hl, hb⟩ := ih s' h
+      refine ⟨(p, o, tok) :: l, by rw [hl], ?_⟩
+      rw [List.flatMap_cons, hb]
+    | err e => rw [hr] at h; simp at h
+    | panic => rw [hr] at h; simp at h
+
+/-- With indentation: the same tokens, each decorated with indentation spaces in front and
+    possibly a newline behind. -/
+theorem writeHtmlPrettyGo_tokens (c : HtmlCtx) (sup : List Nat) (t : Tree) (outs : List (Path × Output)) :
+    ∀ ps s, (writeHtmlPrettyGo c sup t ps s outs).2 = .ok () →
+      ∃ l, renderHtmlAll c t s outs = .ok l ∧ ∃ decor : List (Nat × Bool), decor.length = l.length ∧
+        (writeHtmlPrettyGo c sup t ps s outs).1 =
+          (List.zip decor l).flatMap (fun dk =>
+            (if dk.1.1 > 0 then htmlIndentBytes dk.1.1 else []) ++ htmlTokenBytes dk.2.2.2
+              ++ (if dk.1.2 then htmlNewline else [])) := by
+  induction outs with
+  | nil => intro ps s _; exact ⟨[], rfl, [], rfl, rfl⟩
+  | cons po rest ih =>
+    intro ps s h
+    obtain ⟨p, o⟩ := po
+    simp only [writeHtmlPrettyGo] at h ⊢
+    simp only [renderHtmlAll]
+    cases hr : renderHtmlAt c t s p o with
+    | ok v =>
+      obtain ⟨s', tok⟩ := v
+      rw [hr] at h
+      simp only at h ⊢
+      obtain ⟨l, hl, decor, hlen, hb⟩ := ih _ s' h
+      refine ⟨(p, o, tok) :: l, by rw [hl],
+        ((prettifyHtmlAt c sup t ps p o).2.1, (prettifyHtmlAt c sup t ps p o).2.2) :: decor, by simp [hlen], ?_⟩
+      rw [List.zip_cons_cons, List.flatMap_cons, hb]
+    | err e => rw [hr] at h; simp at h
+    | panic => rw [hr] at h; simp at h
+
 end XotModel
